@@ -79,7 +79,9 @@ pub fn run_eval<O: Clone, A: Clone>(
     let result = guard(|| {
         eval::<open_hypergraphs::array::vec::VecKind, O, A, u64>(f, open_hypergraphs::array::vec::VecArray(inputs), |ops, args| {
             let labels: &Vec<A> = &ops.0 .0;
-            let segs = match segs_to_lists(&args) {
+            // (the codomain of the size map is C08's business, not demanded here)
+            let lenient = decode(&args.sources.table.0, args.values.0 .0.len() + 1, &args.values.0 .0);
+            let segs = match lenient {
                 Ok(s) => s,
                 Err(e) => {
                     *bad.borrow_mut() = Some(format!("argument segments ill-formed: {}", e));
@@ -134,14 +136,30 @@ pub fn judge_log<O, A: Clone + std::fmt::Debug>(
             }
         }
     }
-    for y in 0..m {
-        if batch_of[y].is_none() {
-            return Err(("exactly-once", format!("hyperedge {} never interpreted", y)));
+    // every hyperedge at most once (above); at least once is demanded only of the hyperedges the output interface
+    // depends on -- an evaluator is free not to interpret operations whose results nobody can observe
+    let deps = op_deps(p);
+    let mut needed = vec![false; m];
+    let mut stack: Vec<usize> = (0..m).filter(|&y| p.e[y].t.iter().any(|v| p.t.contains(v))).collect();
+    while let Some(y) = stack.pop() {
+        if !needed[y] {
+            needed[y] = true;
+            stack.extend(deps[y].iter().cloned());
         }
     }
-    let deps = op_deps(p);
     for y in 0..m {
+        if batch_of[y].is_none() && needed[y] {
+            return Err(("exactly-once", format!("hyperedge {} never interpreted although the output depends on it", y)));
+        }
+    }
+    for y in 0..m {
+        if batch_of[y].is_none() {
+            continue;
+        }
         for &x in &deps[y] {
+            if batch_of[x].is_none() {
+                return Err(("dependency-order", format!("hyperedge {} was interpreted but {} which it depends on never was", y, x)));
+            }
             if batch_of[x].unwrap() >= batch_of[y].unwrap() {
                 return Err((
                     "dependency-order",
